@@ -31,7 +31,7 @@ pub fn joinval<const KK: usize>(p: Probe<KK>) -> JoinVal {
     JoinVal { obj: p.obj, seq: p.seq, fold: p.fold, handled: p.handled.clone() }
 }
 
-pub trait DynAddr {
+pub trait DynAddr: Send {
     fn k(&self) -> u8;
     fn clone_box(&self) -> Box<dyn DynAddr>;
     fn send(&self, m: Fire) -> LocalBoxFuture<'_, HResult<()>>;
@@ -146,7 +146,7 @@ impl<const KK: usize> DynAddr for Addr<Probe<KK>> {
     }
 }
 
-pub trait DynWeak {
+pub trait DynWeak: Send {
     fn clone_box(&self) -> Box<dyn DynWeak>;
     fn upgrade(&self) -> Option<Box<dyn DynAddr>>;
     fn stopped(&self) -> bool;
